@@ -329,6 +329,13 @@ def run_check(tier: str, seed: int, workers: Any) -> Dict[str, Any]:
     for v in part_burst['violations']:
         v['features'] = dict(v.get('features', {}), part='burst')
     out = runner.merge([part1, part2, part_deep, part_burst])
+    if tier != 'quick':
+        from ._common import add_sequel, sequel_part
+        from ..explore import guarded_part as _gp
+        seq = _gp(lambda: sequel_part('pv.props.c04', 'burst_factory', ((('S', (), 'wait'), ('S', (), 'ret')), None), 3, 2, workers), 900, {'part': 'sequel'})
+        add_sequel(out, seq, 'every burst history of <=3 requests of a first process followed, in the same fresh interpreter, by '
+                             'every burst history of <=2 requests of a second process of the class: observed exactly as after no '
+                             'earlier process')
     from ..explore import guarded_part
     part3 = guarded_part(check_recreated, 240, {'part': 'recreated'})
     out['coverage']['evaluations'] += part3['n']
@@ -364,6 +371,9 @@ from ._common import is_wc_unit  # noqa: E402
 def replay(doc: Dict[str, Any]) -> List[Dict[str, Any]]:
     from ..cli import to_tuple
     from ..explore import Chooser
+    if (doc.get('case') or {}).get('part') == 'sequel':
+        from ._common import sequel_part
+        return sequel_part('pv.props.c04', 'burst_factory', ((('S', (), 'wait'), ('S', (), 'ret')), None), 3, 2, 2, only=(doc['case']['first'], doc['case']['second']))['violations']
     if (doc.get('case') or {}).get('part') == 'recreated':
         return check_recreated()['violations']
     unit = to_tuple(doc['unit'])
